@@ -1031,7 +1031,7 @@ public:
     /// \bug See tests.
     [[nodiscard]] constexpr auto rfind(const_pointer s, size_type pos, size_type count) const noexcept -> size_type
     {
-        return etl::strings::rfind<Char, Traits>(*this, s, count, pos);
+        return etl::strings::rfind<Char, Traits>(*this, basic_string_view<Char, Traits>{s, count}, pos);
     }
 
     /// \brief Finds the last substring equal to the given character sequence.
